@@ -91,7 +91,7 @@ func zz5RefHeader(pcode int64, oid, okind, onode int32, time int64) []byte {
 	if okind == 0 && onode == 0 {
 		return zz5Cat(zz5Dec(pcode), zz5I32(oid), zz5I64(time))
 	}
-	return zz5Cat([]byte{9}, zz5Dec(pcode), zz5I32(oid), zz5I32(onode), zz5I32(okind), zz5I64(time))
+	return zz5Cat([]byte{9}, zz5Dec(pcode), zz5I32(oid), zz5I32(okind), zz5I32(onode), zz5I64(time))
 }
 
 // ---------------------------------------------------------------- sections and comparison
@@ -270,12 +270,19 @@ func zz5IntMap(n int, k0 int) (*value.IntMapValue, []byte) {
 	return m, r
 }
 
-// zz5ConcreteTags: tags with concrete contents (the path on which the pack hashes its
-// encoded tags: a CRC of symbolic bytes followed by a decimal length classification of the
-// result is out of the solver's reach) and the reference encoding of the tagged map.
-func zz5ConcreteTags(n int) (*value.MapValue, []byte) {
+// zz5HashedTags: tags for the path on which the pack hashes its encoded tags, and the
+// reference encoding of the tagged map. The writer classifies the hash by decimal length,
+// i.e. branches on a CRC of the tag bytes: one tag whose text is ONE symbolic byte is within
+// the solver's reach (probe: 1.6 s); two tags / wider symbolic payloads are not (probe: 36
+// paths undecided after 3 min), so the two-tag form has concrete contents.
+func zz5HashedTags(n int) (*value.MapValue, []byte) {
 	m := value.NewMapValue()
 	r := zz5Cat([]byte{80}, zz5Dec(int64(n)))
+	if n == 1 {
+		s := zzvf.String(1)
+		m.PutString("p", s)
+		return m, zz5Cat(r, zz5Text("p"), []byte{50}, zz5Text(s))
+	}
 	if n > 0 {
 		m.PutString("p", "v")
 		r = zz5Cat(r, zz5Text("p"), []byte{50}, zz5Text("v"))
